@@ -54,9 +54,17 @@ func RepoOverlay(pkgDirs ...string) (map[string][]byte, error) {
 
 // LoadRepo loads repo packages with harnesses injected.
 func LoadRepo(pkgDirs ...string) (*gosym.Engine, error) {
+	return LoadRepoExtra(nil, pkgDirs...)
+}
+
+// LoadRepoExtra additionally injects generated files (path relative to /repo -> content).
+func LoadRepoExtra(extra map[string]string, pkgDirs ...string) (*gosym.Engine, error) {
 	ov, err := RepoOverlay(pkgDirs...)
 	if err != nil {
 		return nil, err
+	}
+	for rel, content := range extra {
+		ov[filepath.Join(RepoDir, rel)] = []byte(content)
 	}
 	var pats []string
 	for _, d := range pkgDirs {
